@@ -311,11 +311,24 @@ func EmptyTest(info *types.Info, c Cond) (ast.Expr, bool, bool) {
 		return nil, false, false
 	}
 	tv, ok := info.Types[be.Y]
-	if !ok || tv.Value == nil || tv.Value.String() != "0" {
+	if !ok || tv.Value == nil {
+		return nil, false, false
+	}
+	// len(x) < 1  and  len(x) >= 1
+	if tv.Value.String() == "1" {
+		switch be.Op {
+		case token.LSS:
+			return call.Args[0], !c.Neg, true
+		case token.GEQ:
+			return call.Args[0], c.Neg, true
+		}
+		return nil, false, false
+	}
+	if tv.Value.String() != "0" {
 		return nil, false, false
 	}
 	switch be.Op {
-	case token.EQL:
+	case token.EQL, token.LEQ:
 		return call.Args[0], !c.Neg, true
 	case token.NEQ, token.GTR:
 		return call.Args[0], c.Neg, true
